@@ -5,6 +5,7 @@ import XPathV.Lemmas.Facts
 import XPathV.Lemmas.PredSem
 import XPathV.Lemmas.PredSem2
 import XPathV.Lemmas.ApiSem
+import XPathV.Lemmas.ApiSem2
 import XPathV.Lemmas.Pull2Proofs
 import XPathV.Lemmas.Pull2Gen
 /-!
@@ -440,3 +441,48 @@ end XPathV.Theorems.C02
 /-! ## Axiom audit (path compared with a path) -/
 section AxiomAudit
 end AxiomAudit
+
+/-! ## C02 from the expression text, extended fragment `Frag2` (`Lemmas/ApiSem2`) -/
+namespace XPathV.Theorems.C02
+open XPathV XPathV.Model
+
+open XPathV.PathSem XPathV.PredSem XPathV.PredSem2 XPathV.ApiSem in
+/-- **C02 at the public API, from the expression text, extended fragment**: on a text that parses
+into `Frag2` (`count(P) op n`, `not(count(P))`, `contains`/`starts-with`/`ends-with` forms,
+`local-name` forms, `(P)[b]`, `P op Q`, `P op 'lit'`, `'lit' op P` — no constructor excluded; the
+plan of a top-level `(P)[b]` is a `.filter`, hence path-shaped), `compile` at the source
+configuration either reports a builder error or returns a path-shaped plan on which `Select` and
+`Evaluate` agree with the oracle at every valid context node of every well-formed document -/
+theorem C02_from_text_full (regexOk : RegexOk) (ns : Option (List (String × String)))
+    (text : List Char) (a : Ast) (hparse : parse (fuelFor text) (defaultCfg ns) text = .ok a)
+    (hfrag : Frag2 true a) :
+    (∃ e, compile { regexOk := regexOk } ns text = .error (.build e)) ∨
+    (∃ p, compile { regexOk := regexOk } ns text = .ok p ∧ PathShape p ∧
+      ∀ (F : Type) [NumAlg F] (d : Doc), WF d → ∀ cfg : ECfg, cfg.nsIface = true → HashInj d cfg →
+        ∀ c, validRef d c = true →
+          ∃ l nsl, selectAll (F := F) d cfg p c = .ok l ∧ evaluate (F := F) d cfg p c = .ok (.nodes l) ∧
+            Spec.evalTop (F := F) d a c = .ok (.nodes nsl) ∧ ∀ x, x ∈ l ↔ x ∈ nsl) :=
+  C02_compile_total2 regexOk ns text a hparse hfrag
+
+open XPathV.PathSem XPathV.PredSem XPathV.PredSem2 XPathV.ApiSem in
+/-- `C02_from_text_full` without the `HashInj` hypothesis (`hashInj_holds`; the side condition left
+is "no element has two attributes with the same prefix, name and value") -/
+theorem C02_from_text_full_unconditional (regexOk : RegexOk) (ns : Option (List (String × String)))
+    (text : List Char) (a : Ast) (hparse : parse (fuelFor text) (defaultCfg ns) text = .ok a)
+    (hfrag : Frag2 true a) :
+    (∃ e, compile { regexOk := regexOk } ns text = .error (.build e)) ∨
+    (∃ p, compile { regexOk := regexOk } ns text = .ok p ∧ PathShape p ∧
+      ∀ (F : Type) [NumAlg F] (d : Doc), WF d → ∀ cfg : ECfg, cfg.nsIface = true →
+        AttrTriplesDistinct d →
+        ∀ c, validRef d c = true →
+          ∃ l nsl, selectAll (F := F) d cfg p c = .ok l ∧ evaluate (F := F) d cfg p c = .ok (.nodes l) ∧
+            Spec.evalTop (F := F) d a c = .ok (.nodes nsl) ∧ ∀ x, x ∈ l ↔ x ∈ nsl) := by
+  rcases C02_from_text_full regexOk ns text a hparse hfrag with h | ⟨p, h1, h2, h3⟩
+  · exact .inl h
+  · exact .inr ⟨p, h1, h2, fun F _ d wf cfg hns hattr c hc =>
+      h3 F d wf cfg hns (hashInj_holds wf hattr cfg) c hc⟩
+
+end XPathV.Theorems.C02
+
+section AxiomAudit2
+end AxiomAudit2
